@@ -320,7 +320,7 @@ func model(c call, t tree) outcome {
 					o.HasSrc, o.Src, o.SrcExcept = true, a.P, noExcept
 				}
 			case two && a.Empty && !b.Empty:
-				if c.Op == "Move" {
+				if c.Op == "Move" || c.Op == "MoveBetweenFS" {
 					o.AllDest = true
 				} else {
 					o.Dest = []string{b.P}
@@ -336,7 +336,7 @@ func model(c call, t tree) outcome {
 	}
 	if t.ancestorIsFile(a.P) {
 		if two {
-			if c.Op == "Move" {
+			if c.Op == "Move" || c.Op == "MoveBetweenFS" {
 				return conflict(b.P, a.P)
 			}
 			return conflict(b.P)
@@ -501,6 +501,14 @@ func model(c call, t tree) outcome {
 		return modelCopy(c, t, a, b)
 	case "Move":
 		return modelMove(t, a, b, c.A == c.B)
+	case "MoveBetweenFS":
+		if c.A == c.B || a.P == b.P {
+			return modelMove(t, a, b, true) // onto itself: nothing changes, whatever is reported
+		}
+		if t.ancestorIsFile(b.P) || (t.kind(a.P) == 'f' && a.Sep) {
+			return conflict(b.P, a.P)
+		}
+		return silent(b.P, a.P)
 	}
 	panic("model: unknown op " + c.Op)
 }
